@@ -1,6 +1,7 @@
 package fk
 
 import (
+	"math/bits"
 	"sync"
 
 	"github.com/IrineSistiana/mosdns/v5/pkg/pool"
@@ -8,19 +9,52 @@ import (
 
 var poisonOnce sync.Once
 
-// PoisonPool makes pool.ReleaseBuf overwrite every released buffer with 0xDD:
-// a buffer that is released while somebody still reads it shows up as garbage.
+// PoisonPool replaces pkg/pool's allocator (go-bytes-pool over the runtime's
+// sync.Pool, whose reuse pattern depends on the GC and on earlier executions)
+// by a deterministic one the harness owns:
+//
+//   - GetBuf returns a fresh buffer of the same length and capacity class as
+//     the original, filled with 0xDD (the real pool hands out buffers with
+//     arbitrary old contents, so code may not rely on what is in there);
+//   - ReleaseBuf checks the capacity class like the original (same panic),
+//     overwrites the buffer with 0xDD and never hands it out again.
+//
+// A buffer that is read after its release, released twice or used without
+// being written therefore shows up as 0xDD garbage in every execution, and an
+// execution never depends on what an earlier one left in the pool.
 func PoisonPool() {
 	poisonOnce.Do(func() {
-		orig := pool.ReleaseBuf
-		pool.ReleaseBuf = func(b *[]byte) {
-			if b != nil {
-				s := (*b)[:cap(*b)]
-				for i := range s {
-					s[i] = 0xDD
-				}
+		const bitLen = 20 // pkg/pool: bytesPool.NewPool(20)
+		pool.GetBuf = func(size int) *[]byte {
+			if size < 0 {
+				panic("bytesPool: negative buffer size")
 			}
-			orig(b)
+			bit := bits.Len(uint(size))
+			var b []byte
+			if bit > bitLen {
+				b = make([]byte, size)
+			} else {
+				b = make([]byte, size, (1<<bit)-1)
+			}
+			s := b[:cap(b)]
+			for i := range s {
+				s[i] = 0xDD
+			}
+			return &b
+		}
+		pool.ReleaseBuf = func(b *[]byte) {
+			c := cap(*b) // nil: same nil dereference as the original
+			bit := bits.Len(uint(c))
+			if bit > bitLen {
+				return
+			}
+			if c != (1<<bit)-1 {
+				panic("bytesPool: invalid buf")
+			}
+			s := (*b)[:c]
+			for i := range s {
+				s[i] = 0xDD
+			}
 		}
 	})
 }
